@@ -203,56 +203,111 @@ Qed.
 Lemma inbound_le_live : forall d, live_normal d = false -> inbound_normal d = false.
 Proof. intros d H. unfold inbound_normal. rewrite H. reflexivity. Qed.
 
+(* never-shared screen: one ClientInit keeps "at most one inbound fully connected client" *)
+Lemma client_init_count : forall fl l i shared, f_never fl = true ->
+  count_inbound_normal l <= 1 -> count_inbound_normal (client_init fl l i shared) <= 1.
+Proof.
+  intros fl l i shared Hnever Hc.
+  unfold client_init. destruct (nth_error l i) as [c|] eqn:Hn; [|exact Hc].
+  destruct (k_open c && match k_phase c with PInit => true | _ => false end) eqn:Hready; [|exact Hc].
+  apply andb_true_iff in Hready. destruct Hready as [Hopen Hph].
+  set (l1 := update l i (fun c0 => set_phase c0 PNormal)).
+  destruct (exclusive fl (k_rev c) shared) eqn:Hex.
+  + destruct (f_dontdisc fl).
+    * destruct (other_normal 0 i l1) eqn:Eo.
+      -- eapply Nat.le_trans; [|exact Hc]. apply count_mono.
+         assert (Hl1 : update l1 i close = update l i (fun c0 => close (set_phase c0 PNormal))).
+         { unfold l1. clear. revert i. induction l as [|a t IH]; intros [|i]; cbn; auto. f_equal. apply IH. }
+         rewrite Hl1. apply Forall2_update; [auto|]. intros x _. cbn. discriminate.
+      -- apply (count_le_one l1 i). intros j d Hj Hne. apply inbound_le_live.
+         destruct (live_normal d) eqn:El; [|reflexivity]. exfalso.
+         assert (other_normal 0 i l1 = true); [|congruence].
+         apply other_normal_spec. exists j, d. cbn. auto.
+    * apply (count_le_one _ i). intros j d Hj Hne. rewrite nth_close_other in Hj.
+      destruct (nth_error l1 j) as [d0|]; [|discriminate]. injection Hj as <-. cbn [Nat.add].
+      assert (E : Nat.eqb j i = false) by (apply Nat.eqb_neq; exact Hne). rewrite E. cbn [negb andb].
+      destruct (live_normal d0) eqn:El; apply inbound_le_live; [reflexivity|exact El].
+  + unfold exclusive in Hex. rewrite Hnever in Hex. cbn in Hex. rewrite andb_true_r in Hex.
+    apply negb_false_iff in Hex.
+    eapply Nat.le_trans; [|exact Hc]. apply count_mono. apply Forall2_update; [auto|].
+    intros x Hx. rewrite Hn in Hx. injection Hx as <-. unfold inbound_normal. cbn. rewrite Hex, andb_false_r. discriminate.
+Qed.
+
+(* updates that do not make a client fully connected keep the count *)
+Lemma update_count : forall l i f,
+  (forall x, inbound_normal (f x) = true -> inbound_normal x = true) ->
+  count_inbound_normal (update l i f) <= count_inbound_normal l.
+Proof. intros l i f H. apply count_mono. apply Forall2_update; [auto|]. intros x _. apply H. Qed.
+
+Lemma handle_one_count : forall fl l i, f_never fl = true ->
+  count_inbound_normal l <= 1 -> count_inbound_normal (handle_one fl l i) <= 1.
+Proof.
+  intros fl l i Hnever Hc. unfold handle_one.
+  destruct (nth_error l i) as [c|]; [|exact Hc]. destruct (active c); [|exact Hc].
+  assert (H0 : count_inbound_normal (update l i (fun c0 => set_pmsg c0 None)) <= 1).
+  { eapply Nat.le_trans; [apply update_count|exact Hc]. intros x Hx. exact Hx. }
+  destruct (k_pmsg c) as [[|sh]|].
+  - unfold handle_adv. cbn [k_phase set_pmsg k_minor k_gone]. destruct (k_phase c); try exact H0.
+    destruct (k_gone c && Z.ltb 7 (k_minor c)).
+    { eapply Nat.le_trans; [apply update_count|exact H0]. intros x Hx. cbn in Hx. discriminate. }
+    assert (H1 : count_inbound_normal (update (update l i (fun c0 => set_pmsg c0 None)) i (fun c0 => set_phase c0 PInit)) <= 1).
+    { eapply Nat.le_trans; [apply update_count|exact H0]. intros x Hx.
+      unfold inbound_normal, live_normal, is_normal in Hx. cbn in Hx. rewrite andb_false_r in Hx. discriminate. }
+    destruct (Z.eqb (k_minor c) 889); [apply client_init_count; assumption|exact H1].
+  - destruct (k_gone c); [|apply client_init_count; assumption].
+    eapply Nat.le_trans; [apply update_count|exact H0]. intros x Hx. cbn in Hx. discriminate.
+  - destruct (k_gone c); [|exact Hc].
+    eapply Nat.le_trans; [apply update_count|exact Hc]. intros x Hx. cbn in Hx. discriminate.
+Qed.
+
+Lemma pass_from_count : forall fl n l, f_never fl = true ->
+  count_inbound_normal l <= 1 -> count_inbound_normal (pass_from fl n l) <= 1.
+Proof.
+  induction n as [|n IH]; intros l Hn Hc; cbn [pass_from]; [exact Hc|].
+  apply IH; [exact Hn|]. apply handle_one_count; assumption.
+Qed.
+
+Lemma pump_count : forall fl l, f_never fl = true ->
+  count_inbound_normal l <= 1 -> count_inbound_normal (pump fl l) <= 1.
+Proof. intros. unfold pump, pass. repeat apply pass_from_count; assumption. Qed.
+
+Lemma append_count : forall l c, is_normal c = false ->
+  count_inbound_normal (l ++ [c]) = count_inbound_normal l.
+Proof.
+  intros l c H. unfold count_inbound_normal. rewrite filter_app, app_length. cbn [filter].
+  unfold inbound_normal, live_normal. rewrite H, andb_false_r. cbn. lia.
+Qed.
+
+Lemma phase_after_version_not_normal : forall m, match phase_after_version m with PNormal => true | _ => false end = false.
+Proof. intros m. unfold phase_after_version. destruct (Z.ltb m 7); reflexivity. Qed.
+
 Lemma step_nevershared : forall fl l o, f_never fl = true ->
   count_inbound_normal l <= 1 -> count_inbound_normal (step fl l o) <= 1.
 Proof.
-  intros fl l o Hnever Hc. destruct o as [rev|rev|rev|i|i|i shared|i]; cbn [step].
-  - unfold count_inbound_normal in *. rewrite filter_app, app_length. cbn. lia.
-  - unfold count_inbound_normal in *. rewrite filter_app, app_length. cbn. lia.
-  - unfold count_inbound_normal in *. rewrite filter_app, app_length. cbn. lia.
-  - eapply Nat.le_trans; [|exact Hc]. apply count_mono. apply Forall2_update; [auto|].
-    intros x _. destruct (k_open x && match k_phase x with PHold => true | _ => false end) eqn:E; [|auto].
-    destruct (k_gone x); unfold inbound_normal, live_normal, is_normal; cbn; [discriminate|].
-    rewrite andb_false_r. discriminate.
-  - eapply Nat.le_trans; [|exact Hc]. apply count_mono. apply Forall2_update; [auto|].
-    intros x _. destruct (k_open x && match k_phase x with PSec => true | _ => false end); [|auto].
-    unfold inbound_normal, live_normal, is_normal. cbn. rewrite andb_false_r. discriminate.
-  - unfold client_init. destruct (nth_error l i) as [c|] eqn:Hn; [|exact Hc].
-    destruct (k_open c && match k_phase c with PInit => true | _ => false end) eqn:Hready; [|exact Hc].
-    apply andb_true_iff in Hready. destruct Hready as [Hopen Hph].
-    set (l1 := update l i (fun c0 => set_phase c0 PNormal)).
-    destruct (exclusive fl (k_rev c) shared) eqn:Hex.
-    + destruct (f_dontdisc fl).
-      * destruct (other_normal 0 i l1) eqn:Eo.
-        -- (* newcomer refused *)
-           eapply Nat.le_trans; [|exact Hc]. apply count_mono.
-           assert (Hl1 : update l1 i close = update l i (fun c0 => close (set_phase c0 PNormal))).
-           { unfold l1. clear. revert i. induction l as [|a t IH]; intros [|i]; cbn; auto. f_equal. apply IH. }
-           rewrite Hl1. apply Forall2_update; [auto|]. intros x _. cbn. discriminate.
-        -- (* no other fully connected client *)
-           apply (count_le_one l1 i). intros j d Hj Hne. apply inbound_le_live.
-           destruct (live_normal d) eqn:El; [|reflexivity]. exfalso.
-           assert (other_normal 0 i l1 = true); [|congruence].
-           apply other_normal_spec. exists j, d. cbn. auto.
-      * (* everybody else is closed *)
-        apply (count_le_one _ i). intros j d Hj Hne. rewrite nth_close_other in Hj.
-        destruct (nth_error l1 j) as [d0|]; [|discriminate]. injection Hj as <-. cbn [Nat.add].
-        assert (E : Nat.eqb j i = false) by (apply Nat.eqb_neq; exact Hne). rewrite E. cbn [negb andb].
-        destruct (live_normal d0) eqn:El; apply inbound_le_live; [reflexivity|exact El].
-    + (* not exclusive on a never-shared screen: a reverse connection *)
-      unfold exclusive in Hex. rewrite Hnever in Hex. cbn in Hex. rewrite andb_true_r in Hex.
-      apply negb_false_iff in Hex.
-      eapply Nat.le_trans; [|exact Hc]. apply count_mono. apply Forall2_update; [auto|].
-      intros x Hx. rewrite Hn in Hx. injection Hx as <-. unfold inbound_normal. cbn. rewrite Hex, andb_false_r. discriminate.
-  - eapply Nat.le_trans; [|exact Hc]. apply count_mono. apply Forall2_update; [auto|].
-    intros x _. destruct (k_open x && match k_phase x with PHold => true | _ => false end) eqn:E.
-    + apply andb_true_iff in E. destruct E as [_ E]. unfold inbound_normal, live_normal, is_normal. cbn.
-      destruct (k_phase x); try discriminate E. cbn. discriminate.
-    + cbn. discriminate.
+  intros fl l o Hnever Hc. destruct o as [rev m|rev m|rev|i|i q|i sh q|i q]; cbn [step].
+  - apply pump_count; [exact Hnever|]. rewrite append_count; [exact Hc|]. unfold is_normal. cbn. apply phase_after_version_not_normal.
+  - apply pump_count; [exact Hnever|]. rewrite append_count; [exact Hc|reflexivity].
+  - apply pump_count; [exact Hnever|]. rewrite append_count; [exact Hc|reflexivity].
+  - apply pump_count; [exact Hnever|]. eapply Nat.le_trans; [apply update_count|exact Hc].
+    intros x Hx. destruct (k_open x && is_hold x) eqn:E; [|exact Hx].
+    unfold inbound_normal, live_normal, is_normal in Hx. cbn in Hx. rewrite phase_after_version_not_normal in Hx.
+    rewrite andb_false_r in Hx. discriminate.
+  - assert (H1 : count_inbound_normal (enqueue l i (fun p => match p with PSec => true | _ => false end) MAdv) <= 1).
+    { unfold enqueue. eapply Nat.le_trans; [apply update_count|exact Hc]. intros x Hx.
+      match type of Hx with context [if ?b then _ else _] => destruct b end; exact Hx. }
+    destruct q; [exact H1|apply pump_count; assumption].
+  - assert (H1 : count_inbound_normal (enqueue l i (fun p => match p with PInit => true | _ => false end) (MInit sh)) <= 1).
+    { unfold enqueue. eapply Nat.le_trans; [apply update_count|exact Hc]. intros x Hx.
+      match type of Hx with context [if ?b then _ else _] => destruct b end; exact Hx. }
+    destruct q; [exact H1|apply pump_count; assumption].
+  - assert (H1 : count_inbound_normal (update l i (fun c => if k_open c then set_gone c else c)) <= 1).
+    { eapply Nat.le_trans; [apply update_count|exact Hc]. intros x Hx. destruct (k_open x); exact Hx. }
+    destruct q; [exact H1|apply pump_count; assumption].
 Qed.
 
-(* C14_nevershared_at_most_one: for every arrival order, every shared flag, every interleaving
-   of connects / handshake steps / drops, with or without dontDisconnect *)
+(* C14_nevershared_at_most_one: for every arrival order, every protocol version, every shared flag,
+   every interleaving of connects (accepted / on hold / refused), handshake steps, hang-ups and
+   event-loop passes, with or without dontDisconnect *)
 Lemma nevershared_at_most_one : forall fl ops, f_never fl = true ->
   count_inbound_normal (run fl [] ops) <= 1.
 Proof.
@@ -262,17 +317,37 @@ Proof.
   apply H. cbn. lia.
 Qed.
 
-(* non-vacuity: two inbound clients do reach RFB_NORMAL one after the other on a never-shared
-   screen, and on an ordinary screen two shared clients coexist *)
+Definition hs (i : nat) (sh : bool) : list op := [OAdv i false; OInit i sh false].
 Example nevershared_nonvacuous :
-  map obs_code (run (mkFlags false true false) [] [OConn false; OAdv 0; OInit 0 true; OConn false; OAdv 1; OInit 1 true])
+  map obs_code (run (mkFlags false true false) [] ([OConn false 8] ++ hs 0 true ++ [OConn false 8] ++ hs 1 true))
     = [(-1)%Z; 4%Z] /\
-  map obs_code (run (mkFlags false true true) [] [OConn false; OAdv 0; OInit 0 true; OConn false; OAdv 1; OInit 1 true])
+  map obs_code (run (mkFlags false true true) [] ([OConn false 8] ++ hs 0 true ++ [OConn false 8] ++ hs 1 true))
     = [4%Z; (-1)%Z] /\
-  map obs_code (run (mkFlags false false false) [] [OConn false; OAdv 0; OInit 0 true; OConn false; OAdv 1; OInit 1 true])
+  map obs_code (run (mkFlags false false false) [] ([OConn false 8] ++ hs 0 true ++ [OConn false 8] ++ hs 1 true))
     = [4%Z; 4%Z] /\
-  count_inbound_normal (run (mkFlags false false false) [] [OConn false; OAdv 0; OInit 0 true; OConn false; OAdv 1; OInit 1 true]) = 2.
+  count_inbound_normal (run (mkFlags false false false) [] ([OConn false 8] ++ hs 0 true ++ [OConn false 8] ++ hs 1 true)) = 2.
 Proof. vm_compute. repeat split. Qed.
 
-Example ready_nonvacuous : ready (run (mkFlags false false false) [] [OConn false; OAdv 0]) 0 (mkClient false PInit true false).
+Example ready_nonvacuous :
+  ready (run (mkFlags false false false) [] [OConn false 8; OAdv 0 false]) 0 (mkClient false PInit true false 8 None).
+Proof. vm_compute. repeat split. Qed.
+
+(* protocol versions: 3.3 has no type choice; 3.14 / 3.16 (UltraVNC) behave like 3.8: their ClientInit
+   is read and an exclusive request disconnects the others; only 3.889 is implicitly shared *)
+Example versions_in_sharing :
+  map obs_code (run (mkFlags false false false) [] ([OConn false 8] ++ hs 0 true ++ [OConn false 14] ++ hs 1 false)) = [(-1)%Z; 4%Z] /\
+  map obs_code (run (mkFlags false false false) [] ([OConn false 8] ++ hs 0 true ++ [OConn false 889; OAdv 1 false])) = [4%Z; 4%Z] /\
+  map obs_code (run (mkFlags false false false) [] ([OConn false 8] ++ hs 0 true ++ [OConn false 3; OInit 1 false false])) = [(-1)%Z; 4%Z].
+Proof. vm_compute. repeat split. Qed.
+
+(* hang-up and ClientInit in the same pass: the newer client A (index 1, list head) hangs up, the
+   older C (index 0) sends an exclusive ClientInit; with dontDisconnect C is let in because A is
+   closed first (and skipped by the iterator).  The other arrival order refuses C. *)
+Example same_pass_head_first :
+  map obs_code (run (mkFlags false false true) []
+    [OConn false 8; OAdv 0 false; OConn false 8; OAdv 1 false; OInit 1 true false;
+     ODrop 1 true; OInit 0 false false]) = [4%Z; (-1)%Z] /\
+  map obs_code (run (mkFlags false false true) []
+    [OConn false 8; OAdv 0 false; OInit 0 true false; OConn false 8; OAdv 1 false;
+     ODrop 0 true; OInit 1 false false]) = [(-1)%Z; (-1)%Z].
 Proof. vm_compute. repeat split. Qed.
